@@ -47,9 +47,15 @@ def cases(draw):
     items = []
     for w in WRITERS:
         m = draw(S.model_specs(profile_for(w), 2 if w == "afm" else 1, 8))
-        if w == "clafer":
-            m = c11._unify_attr_types(m)
         items.append({"writer": w, "model": m})
+    # purity and determinism do not depend on expressiveness: every writer except AFM (whose attributes have
+    # another shape) also gets a model from the broad JSON profile; if it cannot write it in-process the item
+    # is dropped by the oracle
+    for w in WRITERS:
+        if w != "afm" and draw(st.booleans()):
+            items.append({"writer": w, "model": draw(S.model_specs(S.JSON, 1, 7)), "foreign": True})
+    if False:
+        items.append(None)
     envs = [{"hashseed": draw(st.sampled_from(["0", "1", "4242", "derived"])), "locale": "ascii"}]
     for _ in range(2):
         envs.append({"hashseed": draw(st.sampled_from(["0", "1", "4242", "derived"])),
@@ -91,7 +97,8 @@ def check(case):
                 p = sc.path(f"o{i}_{rep}")
                 r = lib(lambda: cls(p, fm).transform())
                 if isinstance(r, Raised):
-                    out.append((f"C12.{w}.writer-raised:{r.label}", r.text))
+                    if not item.get("foreign"):
+                        out.append((f"C12.{w}.writer-raised:{r.label}", r.text))
                     failed = True
                     break
                 rets.append(r)
@@ -141,9 +148,9 @@ def check(case):
                     out.append((f"C12.{w}.output-differs-across-environments", tag))
                 if r["file_sha"] != r["ret_sha"] and w != "featureide":
                     out.append((f"C12.{w}.returned!=file", tag))
-                if "read_error" in r:
+                if "read_error" in r and not item.get("foreign"):
                     out.append((f"C12.{w}.read-back-fails-in-environment", f"{tag}: {r['read_error']}"))
-                elif "names" in r:
+                elif "names" in r and not item.get("foreign"):
                     want = sorted(build.names(item["model"]))
                     if r["names"] != want:
                         out.append((f"C12.{w}.names-after-read-back", f"{tag}: expected {want[:4]}, got {r['names'][:4]}"))
